@@ -68,6 +68,10 @@ func c11Cases(tier string, seed int64) []core.Case {
 		cases = append(cases, core.Case{ID: "optional-interfaces/" + ifaces, Run: func(ctx *core.Ctx) core.Result { return c11Subset(ctx, ifaces) }})
 	}
 	cases = append(cases, core.Case{ID: "destroy-waits-for-operation", Run: c11DestroyWaitsForOperation})
+	for _, mp := range []int{0, 4} {
+		mp := mp
+		cases = append(cases, core.Case{ID: fmt.Sprintf("queued-at-disconnect/maxpend=%d", mp), Run: func(ctx *core.Ctx) core.Result { return c11QueuedAtDisconnect(ctx, "C11", mp) }})
+	}
 	for _, where := range []string{"fiddestroy", "connclosed"} {
 		where := where
 		cases = append(cases, core.Case{ID: "slow-teardown/" + where, Run: func(ctx *core.Ctx) core.Result { return c11SlowTeardown(ctx, where) }})
@@ -595,8 +599,8 @@ func c11Ufs(ctx *core.Ctx, dotu bool) core.Result {
 	base := libGoroutines()
 	files := []string{"file01xxx", "file02xxxxxx", "file05xxxxxxxxxxxxxxx", "file07xxxxxxxxxxxxxxxxxxxxx"}
 	for nopen := 0; nopen <= 6; nopen++ {
-		for _, cutKind := range []string{"close", "reset", "midframe", "pending-read", "open-blocked"} {
-			if cutKind == "open-blocked" && nopen > 2 {
+		for _, cutKind := range []string{"close", "reset", "midframe", "pending-read", "open-blocked", "open-queued"} {
+			if (cutKind == "open-blocked" || cutKind == "open-queued") && nopen > 2 {
 				continue
 			}
 			res.Evals++
@@ -654,7 +658,7 @@ func c11Ufs(ctx *core.Ctx, dotu bool) core.Result {
 					_ = v.Send(&wire.Msg{Type: wire.Tread, Tag: 95, Fid: 10, Offset: 0, Count: 100}, &wire.Msg{Type: wire.Tstat, Tag: 96, Fid: 10}, &wire.Msg{Type: wire.Tclunk, Tag: 97, Fid: 10})
 				}
 				v.Hangup()
-			case "open-blocked":
+			case "open-blocked", "open-queued":
 				// a Topen that is still inside the file server at the disconnect: open(2) of a named pipe blocks until
 				// a writer shows up, which happens only after the connection's close processing is over
 				fifo := filepath.Join(root, fmt.Sprintf("pipe-%d", nopen))
@@ -668,7 +672,24 @@ func c11Ufs(ctx *core.Ctx, dotu bool) core.Result {
 					res.Inconclusive = "c11ufs: walk to the named pipe failed"
 					return res
 				}
+				if cutKind == "open-queued" {
+					// … and, under the same tag, the Topen of a regular file (or the Tcreate of one): it waits for the
+					// first and is started only after the disconnect
+					r2, e2 := v.Rpc(&wire.Msg{Type: wire.Twalk, Tag: 82, Fid: 0, Newfid: 41, Wname: []string{[]string{files[0], "sub"}[nopen%2]}}, W)
+					if e2 != nil || r2.Msg == nil || r2.Msg.Type != wire.Rwalk {
+						res.Inconclusive = "c11ufs: walk for the queued request failed"
+						return res
+					}
+				}
 				_ = v.Send(&wire.Msg{Type: wire.Topen, Tag: 81, Fid: 40, Mode: 0})
+				if cutKind == "open-queued" {
+					if nopen%2 == 0 {
+						_ = v.Send(&wire.Msg{Type: wire.Topen, Tag: 81, Fid: 41, Mode: 0})
+					} else {
+						_ = v.Send(&wire.Msg{Type: wire.Tcreate, Tag: 81, Fid: 41, Name: fmt.Sprintf("made-late-%d", nopen), Perm: 0o644, Mode: 1})
+					}
+					s.Ctl.WaitPassed("recv.dispatch", 0, 81, 2, 2*time.Second)
+				}
 				inOpen := waitFor(W, func() bool {
 					n := runtime.Stack(stackBuf, true)
 					for _, g := range strings.Split(string(stackBuf[:n]), "\n\n") {
@@ -1058,5 +1079,126 @@ func c11DestroyWaitsForOperation(ctx *core.Ctx) core.Result {
 		res.Count("teardowns_waiting_for_an_operation", 1)
 		res.Sig(fmt.Sprintf("destroy-waits-for-operation|%v|%s|%d", dotu, wire.TypeName(held.Type), nf))
 	}
+	return res
+}
+
+// c11QueuedAtDisconnect: at the disconnect one request is executing (held in the implementation) and a second one,
+// sent under the same tag, is still waiting for it — it has not been started. The second one binds a fid (Tattach,
+// Tauth-less Twalk to a new fid) or works on an existing one. After the disconnect the first is released. Whatever the
+// server does with the waiting request then, the process survives, the bystander is served, ConnClosed was reported
+// once, and every fid object the implementation was ever shown is reported destroyed exactly once.
+func c11QueuedAtDisconnect(ctx *core.Ctx, prop string, maxpend int) core.Result {
+	var res core.Result
+	kinds := []string{"walk-newfid", "attach", "walk-inplace", "open", "stat", "clunk", "walk-newfid+open"}
+	for round := 0; round < 2*len(kinds) && len(res.Violations) == 0; round++ {
+		ctx.Beat()
+		dotu := round%2 == 0
+		kind := kinds[round%len(kinds)]
+		s := NewSess(Config{Dotu: dotu, Msize: 8192, Maxpend: maxpend})
+		v, b := s.Dial(), s.Dial()
+		ver := "9P2000"
+		if dotu {
+			ver = "9P2000.u"
+		}
+		for _, c := range []*CConn{v, b} {
+			if r, err := c.Version(8192, ver, W); err != nil || r.Msg == nil || r.Msg.Type != wire.Rversion {
+				res.Inconclusive = "c11 queued: setup failed"
+				return res
+			}
+			if a, err := c.Rpc(&wire.Msg{Type: wire.Tattach, Tag: 1, Fid: 1, Afid: wire.NOFID, Uname: "root", Nuname: 0}, W); err != nil || a.Msg == nil || a.Msg.Type != wire.Rattach {
+				res.Inconclusive = "c11 queued: attach failed"
+				return res
+			}
+		}
+		v.Rpc(&wire.Msg{Type: wire.Twalk, Tag: 2, Fid: 1, Newfid: 8, Wname: []string{"f1"}}, W)
+		det := map[string]interface{}{"dotu": dotu, "maxpend": maxpend, "queued": kind}
+		plan := script.NewPlan()
+		plan.Gate, plan.Entered = make(chan struct{}), make(chan struct{})
+		s.Ops.SetPlan(v.ID, 5, plan)
+		_ = v.Send(&wire.Msg{Type: wire.Tstat, Tag: 5, Fid: 1})
+		select {
+		case <-plan.Entered:
+		case <-time.After(W):
+			res.Inconclusive = "c11 queued: held request never started"
+			return res
+		}
+		var queued []*wire.Msg
+		switch kind {
+		case "walk-newfid":
+			queued = []*wire.Msg{{Type: wire.Twalk, Tag: 5, Fid: 1, Newfid: 9, Wname: []string{"d1"}}}
+		case "attach":
+			queued = []*wire.Msg{{Type: wire.Tattach, Tag: 5, Fid: 9, Afid: wire.NOFID, Uname: "root", Nuname: 0}}
+		case "walk-inplace":
+			queued = []*wire.Msg{{Type: wire.Twalk, Tag: 5, Fid: 8, Newfid: 8}}
+		case "open":
+			queued = []*wire.Msg{{Type: wire.Topen, Tag: 5, Fid: 8, Mode: 0}}
+		case "stat":
+			queued = []*wire.Msg{{Type: wire.Tstat, Tag: 5, Fid: 8}}
+		case "clunk":
+			queued = []*wire.Msg{{Type: wire.Tclunk, Tag: 5, Fid: 8}}
+		case "walk-newfid+open":
+			queued = []*wire.Msg{{Type: wire.Twalk, Tag: 5, Fid: 1, Newfid: 9, Wname: []string{"f2"}}, {Type: wire.Topen, Tag: 5, Fid: 9, Mode: 0}}
+		}
+		_ = v.Send(queued...)
+		s.Ctl.WaitPassed("recv.dispatch", v.ID, 5, 1+len(queued), 2*time.Second)
+		v.Hangup()
+		if !s.Ctl.WaitPassed("close.exit", v.ID, sched.AnyTag, 1, W) {
+			res.Inconclusive = "c11 queued: the close processing did not finish while a request was held (not this scenario's verdict)"
+			close(plan.Gate)
+			return res
+		}
+		seqRel := s.Log.Seq()
+		close(plan.Gate)
+		// the held request returns; whatever was waiting behind it is dealt with; then nothing of the connection moves
+		waitFor(W, func() bool {
+			for _, ev := range s.Log.Snapshot(seqRel) {
+				if ev.Kind == "exit" && ev.Conn == v.ID && ev.Tag == 5 {
+					return true
+				}
+			}
+			return false
+		})
+		v.Quiesce(W)
+		time.Sleep(5 * time.Millisecond)
+		res.Evals++
+		// the bystander
+		if st, err := b.Rpc(&wire.Msg{Type: wire.Tstat, Tag: 7, Fid: 1}, W); err != nil || st.Msg == nil || st.Msg.Type != wire.Rstat {
+			res.Violate(prop+";queued-at-disconnect;bystander", fmt.Sprintf("after the victim's disconnect (a %s was waiting behind an executing request of its tag) the bystander's Tstat got %v", kind, st), det)
+		}
+		nclosed := 0
+		shown, destroyed := map[int64]bool{}, map[int64]int{}
+		late := 0
+		for _, ev := range s.Log.Snapshot(0) {
+			switch {
+			case ev.Kind == "connclosed" && ev.Conn == v.ID:
+				nclosed++
+			case ev.Kind == "op" && ev.Conn == v.ID:
+				for _, t := range []int64{ev.Fid, ev.Newfid} {
+					if t != 0 {
+						shown[t] = true
+					}
+				}
+				if ev.Seq > seqRel {
+					late++
+				}
+			case ev.Kind == "destroy":
+				destroyed[ev.Fid]++
+			}
+		}
+		if nclosed != 1 {
+			res.Violate(prop+";queued-at-disconnect;connclosed-count", fmt.Sprintf("ConnClosed reported %d times", nclosed), det)
+		}
+		for t := range shown {
+			if destroyed[t] != 1 {
+				res.Violate(fmt.Sprintf("%s;queued-at-disconnect;destroy-count;n=%d;%s", prop, destroyed[t], kind),
+					fmt.Sprintf("a %s was waiting behind an executing request of its tag at the disconnect; afterwards fid object %d, which the implementation was shown, was reported destroyed %d times (%d operations reached the implementation after the disconnect)", kind, t, destroyed[t], late), det)
+				break
+			}
+		}
+		res.Count("queued_requests_executed_after_disconnect", int64(late))
+		res.Sig(fmt.Sprintf("queued-at-disconnect|%v|%s|mp=%d|late=%d", dotu, kind, maxpend, late))
+		b.Hangup()
+	}
+	res.Sample(map[string]interface{}{"scenario": "a request waits behind an executing one of its tag at the disconnect", "maxpend": maxpend})
 	return res
 }
